@@ -95,7 +95,7 @@ def oft_lit(t):
 
 def spt_lit(p, name_id, desc_id):
     dt = "None" if p.dt is None else "(Some (%s, %s, %s))" % tuple(zlit(x) for x in fbits(p.dt))
-    return (f"(mkspt {p.hs_dim} {dt} {oft_lit(p.tin)} {oft_lit(p.tout)} {name_id} {desc_id} None "
+    return (f"(mkspt {p.hs_dim} {dt} {oft_lit(p.tin)} {oft_lit(p.tout)} {name_id} {desc_id} {oft_lit(getattr(p, 'init', None))} "
             f"{coq_list([ftensor_lit(m) for m in p.mpos])} {coq_list([ftensor_lit(c) for c in p.caps])})")
 
 
@@ -108,6 +108,8 @@ def build_named(p, name, desc, fortran=False):
         pt.set_mpo_tensor(k, lay(m))
     for k, c in enumerate(p.caps):
         pt.set_cap_tensor(k, c)
+    if getattr(p, "init", None) is not None:
+        pt.set_initial_tensor(lay(p.init))
     return pt
 
 
@@ -133,6 +135,8 @@ def run(chk):
             tr = ["in", "out", True, False][i] if i < 4 else rng.choice([False, False, False, True, True, "in", "out"])
             p = rand_intpt(rng, d, N, maxbond=3, transforms=tr, lo=-2, hi=2)
             p.dt = rng.choice([None, 0.1, 0.25, 1 / 3])
+            # an initial tensor (the initial state encoded in the process tensor) in a third of the cases, forced for i == 4, 5
+            p.init = gint(rng, (p.mpos[0].shape[0], d * d), -2, 2) if (i in (4, 5) or rng.random() < 0.3) else None
             # malformed stream: a cap tensor equal to the 1-element NaN array (the sentinel)
             sentinel = rng.random() < 0.1
             if sentinel:
@@ -148,7 +152,7 @@ def run(chk):
             # a small pool of file names, re-used with overwrite=True: what is imported must be what was exported LAST
             fn = os.path.join(tmp, f"pt_{i % 3}.hdf5")
             m = {"d": d, "N": N, "dt": p.dt, "ranks": [x.ndim for x in p.mpos], "transforms": {True: "both", False: "none"}.get(tr, tr),
-                 "bonds": [x.shape[1] for x in p.mpos], "sentinel_cap": sentinel}
+                 "bonds": [x.shape[1] for x in p.mpos], "sentinel_cap": sentinel, "initial_tensor": p.init is not None}
             try:
                 pt.export(fn, overwrite=i >= 3)
             except Exception as ex:
@@ -177,6 +181,8 @@ def run(chk):
                               and np.array_equal(imp.get_bond_dimensions(), pt.get_bond_dimensions())
                               and all(np.array_equal(imp.get_mpo_tensor(k), pt.get_mpo_tensor(k)) for k in range(N))
                               and all(np.array_equal(imp.get_cap_tensor(k), pt.get_cap_tensor(k)) for k in range(N + 1))
+                              and (imp.get_initial_tensor() is None) == (p.init is None)
+                              and (p.init is None or np.array_equal(imp.get_initial_tensor(), pt.get_initial_tensor()))
                               and (imp.transform_in is None) == (pt.transform_in is None)
                               and (imp.transform_out is None) == (pt.transform_out is None)
                               and (pt.transform_in is None or np.array_equal(imp.transform_in, pt.transform_in))
@@ -187,8 +193,9 @@ def run(chk):
                         props = [(gint(rng, (d2, d2), -1, 1), gint(rng, (d2, d2), -1, 1)) for _ in range(N)]
                         rho0 = gint(rng, (d, d), -2, 2)
                         try:
-                            a = states_of(d, pt, props, rho0, N)
-                            b = states_of(d, imp, props, rho0, N)
+                            # (compute_dynamics does not take process tensors that carry an initial tensor)
+                            a = states_of(d, pt, props, rho0, N) if p.init is None else np.zeros(1)
+                            b = states_of(d, imp, props, rho0, N) if p.init is None else np.zeros(1)
                             if not np.array_equal(a, b):
                                 chk.fail("imported-results-differ", f"compute_dynamics on the imported ('{kind}') process tensor differs", dict(m, import_type=kind))
                         except Exception as ex:
